@@ -86,8 +86,9 @@ CHECK = Check(
         "nil, post names other paths => the final Load returns that view) and history_last_writeSlice (the last WriteSlice "
         "replaces exactly its block of what the history before it left). Several WriteSlice calls to ONE dataset, blocks "
         "overlapping in any way: writeSlices_last_block_wins (every element is that of the LAST request whose block covers its "
-        "coordinate, else the original; shape and length kept, file well-formed). Not stated: mixed histories of Write AND "
-        "WriteSlice to one path in closed form (compose history_last_write_wins with writeSlices_last_block_wins by hand)",
+        "coordinate, else the original; shape and length kept, file well-formed). Write then any number of WriteSlice calls "
+        "to the same path: write_then_writeSlices. Not stated as one closed form: arbitrary mixed histories on one path with "
+        "calls on other paths interleaved BETWEEN the WriteSlice calls (compose stored_object_persists with the above by hand)",
         "load_selection_eq_nd_slice (Load with a selection = OW/Nd Slice(starts, counts, steps) of the loaded full array, "
         "read in row-major order) needs every extent of the dataset >= 1 and a selection that picks AT LEAST ONE index in "
         "every dimension; a selection that is empty in some dimension (stop <= start, start beyond the extent) returns an "
